@@ -18,7 +18,7 @@ VERIF = os.path.dirname(os.path.dirname(os.path.abspath(__file__)))
 DRIVER = os.path.join(VERIF, 'driver', 'instantiate.cpp')
 CACHE = os.path.join(VERIF, '.cache')
 MPI_INC = '/usr/lib/x86_64-linux-gnu/openmpi/include'
-CACHE_VERSION = 19
+CACHE_VERSION = 23
 
 
 class AnalysisBroken(Exception):
@@ -44,6 +44,12 @@ def tree_hash(repo, extra=''):
     h.update(extra.encode())
     h.update(str(CACHE_VERSION).encode())
     return h.hexdigest()[:24]
+
+
+# other specialisations of a class template (told apart by the number of members)
+CANON_ALTERNATIVES = {
+    'hep::accumulator': [[('sums_', 'O'), ('non_zero_calls_', 'N'), ('finite_calls_', 'N')]],
+}
 
 
 def field_kind(t):
@@ -446,6 +452,10 @@ class Builder:
             canon = CANON_FIELDS.get(base)
             if canon is None or not r.fields:
                 continue
+            alts = CANON_ALTERNATIVES.get(base)
+            if alts and len(r.fields) != len(canon):
+                # another specialisation of the class template with its own members
+                canon = ([a for a in alts if len(a) == len(r.fields)] or [canon])[0]
             have = [f['name'] for f in r.fields]
             cn = [c[0] for c in canon]
             if set(have) == set(cn):
@@ -455,6 +465,28 @@ class Builder:
             if len(uf) != len(uc) or len(r.fields) != len(canon):
                 continue
             pairs = None
+            # first the public accessors: `channels()` returns the member known as channels_, whatever it is called
+            # now and wherever it is declared (accessor names are part of the public interface)
+            fixed = []
+            for c in list(uc):
+                gname = c[0].rstrip('_')
+                for m in r.methods:
+                    if m.name != gname or m.params or m.raw is None:
+                        continue
+                    refs = set()
+                    stack = [m.raw]
+                    while stack:
+                        x = stack.pop()
+                        if isinstance(x, dict):
+                            if x.get('kind') == 'MemberExpr' and x.get('referencedMemberDecl'):
+                                refs.add(x['referencedMemberDecl'])
+                            stack.extend(x.get('inner') or [])
+                    hit = [f for f in uf if f['id'] in refs]
+                    if len(refs) == 1 and len(hit) == 1:
+                        fixed.append((hit[0], c))
+                        uf = [f for f in uf if f is not hit[0]]
+                        uc = [c_ for c_ in uc if c_ is not c]
+                    break
             kf = [field_kind(f['type']) for f in uf]
             kc = [c[1] for c in uc]
             def km(k_, c_):
@@ -465,8 +497,11 @@ class Builder:
                 pairs = [(f, uc[x[0]]) for f, x in zip(uf, cand)]
             elif all(km(a_, b_) for a_, b_ in zip(kf, kc)):
                 pairs = list(zip(uf, uc))
+            if not uf:
+                pairs = []
             if pairs is None:
                 continue
+            pairs = fixed + list(pairs)
             for f, c in pairs:
                 self.p.field_alias[f['id']] = c[0]
                 if not r.is_pattern:
@@ -638,11 +673,29 @@ class Builder:
         for c in o.get('inner', ()):
             ck = c.get('kind')
             if ck == 'FieldDecl':
+                finit = [x for x in c.get('inner', ()) if isinstance(x, dict) and x.get('kind')
+                         and not x['kind'].endswith('Comment')]
                 r.fields.append({'id': c.get('id'), 'name': c.get('name'),
                                  'type': norm_type(tyof(c), self.numeric),
-                                 'mutable': bool(c.get('mutable'))})
+                                 'mutable': bool(c.get('mutable')),
+                                 'init_raw': finit[0] if finit else None})
                 self.p.hep_ids.add(c.get('id'))
                 self.p.field_owner[c.get('id')] = r
+            elif ck == 'VarDecl' and (c.get('constexpr') or 'const' in tyof(c)):
+                # static constant member with an integer literal initialiser (`static constexpr std::size_t slot = 2;`)
+                leaves = []
+                stack = [x for x in c.get('inner', ()) if isinstance(x, dict)]
+                while stack:
+                    x = stack.pop()
+                    kids = [y for y in x.get('inner', ()) if isinstance(y, dict)]
+                    if kids:
+                        stack.extend(kids)
+                    else:
+                        leaves.append(x)
+                if len(leaves) == 1 and leaves[0].get('kind') == 'IntegerLiteral' and leaves[0].get('value') is not None:
+                    if not hasattr(self.p, 'static_consts'):
+                        self.p.static_consts = {}
+                    self.p.static_consts[c.get('id')] = int(leaves[0]['value'])
             elif ck in FUNC_KINDS:
                 self.func(c, q, r, pattern)
             elif ck == 'FunctionTemplateDecl':
